@@ -76,7 +76,8 @@ def rule_effect(ctx):
                         good = v == ("arg", 2)
                     else:
                         # Default::default() of the small string, or the conversion of the empty literal: the empty string
-                        good = (v[0] == "call" and v[1].endswith("Default>::default") and not v[2]) or (v[0] == "conv" and v[1] == ("const", "")) or v == ("const", "")
+                        good = (v[0] == "call" and v[1].endswith("Default>::default") and not v[2]) or (v[0] == "conv" and v[1] == ("const", "")) or v == ("const", "") \
+                            or (v[0] == "call" and not v[2] and v[1] in ("smartstring::SmartString::<Mode>::new", "std::string::String::new"))
                 det.append("store %s <- %s" % (models.field_path(effs[0][1]) if effs and effs[0][0] == "store" else "?", nshow(effs[0][2])[:60] if effs and effs[0][0] == "store" else [e[1] for e in effs]))
             else:
                 good = len(effs) == 1 and effs[0][0] == "call" and effs[0][2] == ("arg", 1, want[1]) and effs[0][1].split("::")[-1] in want[2] and effs[0][1].startswith("qualifiers::Qualifiers::")
